@@ -228,6 +228,9 @@ func safeCall(h func([]byte) string, p []byte) (ans string) {
 
 // PanicFrame returns the first non-runtime function on the stack of a recovered panic.
 func PanicFrame() string {
+	if f := takeOverrideFrame(); f != "" {
+		return f // the panic was caught on a guarded goroutine and re-raised here
+	}
 	pcs := make([]uintptr, 40)
 	n := runtime.Callers(3, pcs)
 	frames := runtime.CallersFrames(pcs[:n])
